@@ -48,7 +48,8 @@ ASSUMPTIONS = [
 ]
 
 DIRNAMES = ['src', 'lib', 'inc', 'a', 'b', 'sub', 'a b', 'x.d', 'winnt',
-            'linux', '.git', 'lib~', 'd[1]', 'posix', 's*r']
+            'linux', '.git', 'lib~', 'd[1]', 'posix', 's*r', 'libfoo',
+            'src-old', 'ab']
 FILENAMES = ['a.c', 'b.c', 'ab.c', 'a.h', 'b.h', 'x.txt', '.hid', 'bak~',
              '#x#', '.x#', 'a b.c', '[z].c', 'z.c', 'a*', 'q?', 'a', 'b',
              'foo_windows.c', 'foo_linux.c', 'foo_posix.c', 'windows.c',
@@ -182,6 +183,32 @@ def cases(draw):
     tree = draw(trees())
     npat = draw(st.sampled_from([1, 1, 1, 2, 2, 3]))
     pats = [draw(patterns(tree)) for _ in range(npat)]
+    if draw(st.integers(0, 5)) == 0:
+        # several patterns whose literal bases are siblings, one name being a
+        # string prefix of the other
+        a, b = draw(st.sampled_from([('lib', 'libfoo'), ('src', 'src-old'),
+                                     ('a', 'ab'), ('a', 'a b'),
+                                     ('sub', 'sub/a'), ('inc', 'inc2')]))
+        dirs = [''] + [e[0] for e in tree['entries'] if e[1] == 'd' and
+                       not any(ch in e[0] for ch in '*?[')]
+        parent = draw(st.sampled_from(dirs))
+        ents = dict((k, v) for k, v in tree['entries'])
+        for d in (a, b):
+            comps = (parent.split('/') if parent else []) + d.split('/')
+            for i in range(1, len(comps) + 1):
+                ents.setdefault('/'.join(comps[:i]), 'd')
+            for f in draw(st.lists(st.sampled_from(FILENAMES[:8]),
+                                   min_size=1, max_size=3, unique=True)):
+                ents.setdefault('/'.join(comps + [f]), 'f')
+        ents = {k: v for k, v in ents.items()
+                if not any(k.startswith(f + '/') for f, t in ents.items()
+                           if t == 'f')}
+        tree = dict(tree, entries=sorted([k, v] for k, v in ents.items()))
+        pre = (parent + '/') if parent else ''
+        tails = ['*', '*.c', '**/*.c', '*.h', '**']
+        pats = [pre + a + '/' + draw(st.sampled_from(tails)),
+                pre + b + '/' + draw(st.sampled_from(tails))] + pats[:1]
+        pats = draw(st.permutations(pats))
     anydir = any(p.endswith('/') for p in pats)
     typ = draw(st.sampled_from([None, None, 'f', 'd', '*']))
     extra = draw(st.lists(st.sampled_from(SIMPLE), max_size=2, unique=True))
@@ -551,9 +578,35 @@ def prop_find(rec):
                                 sorted('/'.join(c) for c in missing),
                                 sorted('/'.join(c) for c in extra_)), case)
 
+            def check_dist(when):
+                # the source distribution
+                srcs = set()
+                for f in build.sources():
+                    if f.path.root.name == 'srcdir':
+                        srcs.add(tuple(f.path.split()))
+                if case['dist']:
+                    need = (found | must_extra) - dontcare
+                    miss = {c for c in need if c not in srcs}
+                    if miss:
+                        raise Violation(
+                            'find/dist-missing', 'not part of the source '
+                            'distribution ({}): {!r}'.format(
+                                when, sorted('/'.join(c) for c in miss)),
+                            case)
+                else:
+                    leaked = {c for c in srcs
+                              if c != ('build.bfg',) and c in entries}
+                    if leaked:
+                        raise Violation(
+                            'find/dist-false', 'dist=False but in the '
+                            'distribution ({}): {!r}'.format(
+                                when, sorted('/'.join(c) for c in leaked)),
+                            case)
+
             files = ctx['find_files'](pat, **kwargs)
             first = as_set([f.path for f in files], 'find_files')
             compare(first, 'result')
+            check_dist('after the first call, cache={}'.format(case['cache']))
             second = as_set(ctx['find_paths'](pat, **kwargs), 'find_paths')
             if second != first:
                 raise Violation('find/cache-differs', 'second call (cache={})'
@@ -566,27 +619,7 @@ def prop_find(rec):
                 raise Violation('find/cache-flag', 'cache={} returned a '
                                 'different set'.format(not case['cache']),
                                 case)
-            # the source distribution
-            srcs = set()
-            for f in build.sources():
-                if f.path.root.name == 'srcdir':
-                    srcs.add(tuple(f.path.split()))
-            if case['dist']:
-                need = (found | must_extra) - dontcare
-                miss = {c for c in need if c not in srcs}
-                if miss:
-                    raise Violation('find/dist-missing', 'not part of the '
-                                    'source distribution: {!r}'.format(
-                                        sorted('/'.join(c) for c in miss)),
-                                    case)
-            else:
-                leaked = {c for c in srcs
-                          if c != ('build.bfg',) and c in entries}
-                if leaked:
-                    raise Violation('find/dist-false', 'dist=False but in the '
-                                    'distribution: {!r}'.format(
-                                        sorted('/'.join(c) for c in leaked)),
-                                    case)
+            check_dist('after all calls')
             # extras are never returned and every cached extra is sound
             cache = build['find_cache']
             for flt, ent in cache.items():
